@@ -220,7 +220,9 @@ func (p *pager) journalTx(s txShape, spillAfter int, rollback int) {
 			syncJournal()
 			goExclusive()
 			for _, w := range sortedKeys(s.pages) {
-				if w <= s.newN && (journaled[w] || w > n) && !written[w] && newPages[w] != nil && w <= pg {
+				// (a page of the old image that the transaction will cut off at commit is still part of
+				// the file while the transaction runs: a spill writes it like any other dirty page)
+				if (w <= s.newN || (w <= n && journaled[w])) && (journaled[w] || w > n) && !written[w] && newPages[w] != nil && w <= pg {
 					p.do(fmt.Sprintf("dbw %d %s", p.off(w), newToks[w]))
 					written[w] = true
 				}
